@@ -50,7 +50,7 @@ def run(ctx):
       pre = ('m1',)
       # default schedule without faults tells how many backend calls there are
       n = writercheck.explore(ctx, wm, cfg, r_ops, set(), pre, bound=ctx.pick(1, 2), nrandom=ctx.pick(10, 100),
-                              limit=ctx.pick(70, 2500), sink=col)
+                              limit=ctx.pick(70, 1200), sink=col)
       ctx.evaluations += n
       ncalls = max(1, sum(1 for e in col.traces[-1]['ev'] if e['k'] == 'db'))
       for f in range(min(ncalls, ctx.pick(8, 14))):
